@@ -436,7 +436,7 @@ fn main() {
             }
             println!("DONE {}", serde_json::to_string(&rep).unwrap());
         }
-        #[cfg(feature = "cb-std")]
+        #[cfg(all(feature = "cb-std", target_pointer_width = "64"))]
         "huge" => {
             // byte buffers with capacities around 2^31..2^32 (boxed; only the pages around the front are touched)
             let thorough = arg(&args, "--tier").as_deref() == Some("thorough");
@@ -451,7 +451,7 @@ fn main() {
             }
             std::fs::write(arg(&args, "--out").expect("--out"), serde_json::to_string_pretty(&rep).unwrap()).unwrap();
         }
-        #[cfg(feature = "cb-std")]
+        #[cfg(all(feature = "cb-std", target_pointer_width = "64"))]
         "replay-huge" => {
             let text = std::fs::read_to_string(&args[2]).expect("read replay file");
             let v: serde_json::Value = serde_json::from_str(&text).expect("replay file is not JSON");
